@@ -348,15 +348,15 @@ class Run:
         if e.status == "popped":
             self.fail("R2", "timeout_after_pop" + e.sfx, f"on_timeout of {e} called although it was claimed by pop")
         if e.status == "timedout":
-            self.fail("R1", "timeout_twice" + e.sfx, f"on_timeout of {e} called a second time")
+            self.fail("R1", "timeout_stale:re-added" if e.sfx else "timeout_twice", f"on_timeout of {e} called a second time")
         if e.status == "cleared":
-            self.fail("R1", "timeout_after_clear" + e.sfx, f"on_timeout of {e} called after clear()")
+            self.fail("R1", "timeout_stale:re-added" if e.sfx else "timeout_after_clear", f"on_timeout of {e} called after clear()")
         if e.status == "spare":
             self.fail("R3", "duplicate_registered", f"on_timeout of {e}, a duplicate that must never have been accepted")
         if e.status != "out":
             self.fail("R1", "timeout_unregistered", f"on_timeout of {e} in state {e.status}")
         if t < e.deadline - TOL:
-            self.fail("R1", "timeout:early" + e.sfx, f"on_timeout of {e} called {e.deadline - t:.4f}s before its deadline")
+            self.fail("R1", "timeout_stale:re-added" if e.sfx else "timeout:early", f"on_timeout of {e} called {e.deadline - t:.4f}s before its deadline")
         e.status = "timedout"
         del self.out[(e.p, e.n)]
         self.check_late()
